@@ -134,8 +134,62 @@ fn keep_ops(spec: &Spec, keep: &[bool]) -> Spec {
 
 /// candidate simplifications of one op (world specific); each candidate is a full spec
 fn simplify_candidates(spec: &Spec, i: usize) -> Vec<Spec> {
-    let _ = (spec, i);
-    Vec::new()
+    // generic, on the JSON form of the op: register indices towards 0, booleans towards
+    // false, scalars / byte strings towards 0, 1, 2, operator form towards by-value
+    let mut out = Vec::new();
+    let base = match serde_json::to_value(spec) {
+        Ok(v) => v,
+        Err(_) => return out,
+    };
+    let op = match base.get("ops").and_then(|o| o.get(i)) {
+        Some(o) => o.clone(),
+        None => return out,
+    };
+    let obj = match op.as_object() {
+        Some(o) => o.clone(),
+        None => return out,
+    };
+    let idx_keys = ["dst", "a", "b", "s", "e", "slot", "g1", "g2", "from", "x", "y", "z", "v", "which", "j13", "j1621", "bit", "o", "entry"];
+    for (key, val) in obj.iter() {
+        let mut cands: Vec<serde_json::Value> = Vec::new();
+        match val {
+            serde_json::Value::Number(n) => {
+                if let Some(u) = n.as_u64() {
+                    if idx_keys.contains(&key.as_str()) {
+                        for c in [0u64, 1, 2] {
+                            if c < u {
+                                cands.push(serde_json::json!(c));
+                            }
+                        }
+                    }
+                }
+            }
+            serde_json::Value::Bool(true) => cands.push(serde_json::json!(false)),
+            serde_json::Value::String(st) => {
+                let is_hex = !st.is_empty() && st.len() % 2 == 0 && st.bytes().all(|c| c.is_ascii_hexdigit());
+                if key == "form" && st != "VV" {
+                    cands.push(serde_json::json!("VV"));
+                } else if is_hex && (key == "k" || key == "lam" || key == "bytes") {
+                    let n = st.len();
+                    for last in ["00", "01", "02"] {
+                        let c = format!("{}{}", "0".repeat(n - 2), last);
+                        if c != *st {
+                            cands.push(serde_json::json!(c));
+                        }
+                    }
+                }
+            }
+            _ => {}
+        }
+        for c in cands {
+            let mut v = base.clone();
+            v["ops"][i][key] = c;
+            if let Ok(sp) = serde_json::from_value::<Spec>(v) {
+                out.push(sp);
+            }
+        }
+    }
+    out
 }
 
 fn same_failure(a: &Violation, b: &Option<Violation>) -> bool {
@@ -294,6 +348,7 @@ fn cmd_run(args: &[String]) {
     let out = arg(args, "--out").unwrap_or_else(|| harness_error("--out"));
     let status = arg(args, "--status");
     let want_fps = flag(args, "--fps");
+    let fps_limit: u64 = arg(args, "--fps-limit").and_then(|s| s.parse().ok()).unwrap_or(u64::MAX);
     let no_min = flag(args, "--no-minimise");
     let max_viol: usize = arg(args, "--max-violations").and_then(|s| s.parse().ok()).unwrap_or(8);
     let ctx = GenCtx { tier_thorough: arg(args, "--tier") == Some("thorough") };
@@ -332,7 +387,7 @@ fn cmd_run(args: &[String]) {
                 reach.insert(k.clone());
             }
         }
-        if want_fps {
+        if want_fps && i - start < fps_limit {
             fps.push((i, format!("{:016x}", r.fingerprint)));
         }
         for (st, msg) in &r.panics {
